@@ -517,6 +517,49 @@ def odg_text(root: Node) -> str:
     return "\n".join(blocks(root))
 
 
+def gen_odp_pages():
+    """draw:page with 1-2 text frames holding 1-3 paragraphs; paragraph style names out of
+    {TitleText, Title, SubTitle, BodyText, P1, none}; optionally a comment paragraph and speaker notes."""
+    styles = ["TitleText", "Title", "SubTitle", "BodyText", "P1", None]
+    ST = q("text", "style-name")
+
+    def para(tk, st):
+        return N(T_P, text=tk.v(), **({ST: st} if st else {}))
+    for shape in ((1,), (2,), (3,), (1, 1), (2, 1), (1, 2)):
+        for combo in itertools.product(styles, repeat=sum(shape)):
+            if sum(shape) == 3 and len({c for c in combo}) == 3 and "Title" not in combo and "TitleText" not in combo:
+                continue
+            for extra in ("", "comment", "notes"):
+                tk = Tok()
+                it = iter(combo)
+                frames = []
+                for yi, n in enumerate(shape):
+                    pars = [para(tk, next(it)) for _ in range(n)]
+                    if extra == "comment" and yi == 0:
+                        pars.append(N(O_ANNOT, N(T_P, text=tk.x("COM"))))
+                    frames.append(N(D_FRAME, N(D_TEXTBOX, *pars), **{q("svg", "y"): f"{yi + 1}cm", q("svg", "x"): "1cm"}))
+                if extra == "notes":
+                    frames.append(N(q("presentation", "notes"), N(D_FRAME, N(D_TEXTBOX, N(T_P, text=tk.x("NOTE"))))))
+                titles = sum(1 for c in combo if c and "Title" in c)
+                case = "several-title-styled-paragraphs" if titles > 1 else ("one-title" if titles == 1 else "no-title")
+                yield case + ("+" + extra if extra else ""), N(q("draw", "page"), *frames)
+
+
+def odp_page_tokens(page: Node) -> list:
+    """Visible tokens of the slide (text-box paragraphs outside comments and outside the notes), sorted:
+    text_combined orders by category (title, body, other) by documented design, so only multiplicity is specified."""
+    out = []
+
+    def rec(e, hidden):
+        for c in e.children:
+            h = hidden or c.tag in (O_ANNOT, q("presentation", "notes"))
+            if c.tag == T_P and not h:
+                out.extend(tokens(odf_text(c, skip=frozenset({O_ANNOT}))))
+            rec(c, h)
+    rec(page, False)
+    return sorted(out)
+
+
 # ---------------------------------------------------------------------------------------------
 # PPTX paragraphs (DrawingML text body)
 A = "{http://schemas.openxmlformats.org/drawingml/2006/main}"
@@ -601,6 +644,84 @@ def gen_html_bodies():
             tk = Tok()
             a = alts(tk)
             yield "+".join(combo), N("body", *[a[c]() for c in combo])
+
+
+def gen_html_sources():
+    """HTML *source text* (through html.parser and the tree builder): a container with <= 4 items out of
+    {block element, inline element, bare text, removed element (script / style / noscript, with and without nested
+    markup), comment, void element}.  Yields (case, source, specified text)."""
+    def alts(tk):
+        return {
+            "p": lambda: (lambda a: (f"<p>{a}</p>", "\n" + a + "\n"))(tk.v()),
+            "span": lambda: (lambda a: (f"<span>{a}</span>", a))(tk.v()),
+            "a": lambda: (lambda a: (f'<a href="#x">{a}</a>', a))(tk.v()),
+            "text": lambda: (lambda a: (f" {a} ", " " + a + " "))(tk.v()),
+            "script": lambda: (f"<script>var {tk.x('RM')} = 1;</script>", ""),
+            "style": lambda: (f"<style>.{tk.x('RM')} {{}}</style>", ""),
+            "noscript": lambda: (f"<noscript><p>{tk.x('RM')}</p><img src=x></noscript>", ""),
+            "comment": lambda: (f"<!-- {tk.x('COM')} -->", ""),
+            "br": lambda: ("<br>", "\n"),
+        }
+    names = list(alts(Tok()))
+    removed = {"script", "style", "noscript"}
+    for k in (1, 2, 3, 4):
+        for combo in itertools.product(names, repeat=k):
+            if k == 4 and not (removed & set(combo) and "text" in combo):
+                continue
+            tk = Tok()
+            a = alts(tk)
+            parts = [a[c]() for c in combo]
+            for wrap, pre, post in (("div", "<div>", "</div>"), ("body", "", "")):
+                src = "<html><head><title>t</title></head><body>" + pre + "".join(x for x, _ in parts) + post + "</body></html>"
+                spec = "".join(y for _, y in parts)
+                after_removed = any(combo[i] in removed and combo[i + 1] == "text" and i > 0 and combo[i - 1] not in removed | {"text", "comment"}
+                                    for i in range(len(combo) - 1))
+                case = "text-after-removed-element" if after_removed else ("removed-markup" if removed & set(combo) else "plain")
+                yield case, src, spec
+
+
+def gen_rtf_sources():
+    """RTF *source text*: prologue, then <= 3 items out of {body paragraph, header / footer group (plain, with a
+    formatting group, with a nested skip destination before / after its text, with the destination one level deeper),
+    body picture (plain, with a starred sub-destination, with a starred sub-destination that has nested groups),
+    starred destination}.  Yields (case, source, specified text)."""
+    PRO = "{\\rtf1\\ansi\\deff0{\\fonttbl{\\f0\\fswiss Arial;}}{\\colortbl;\\red0\\green0\\blue0;}{\\info{\\title demo}}\n"
+    pict = lambda tk: "{\\pict\\pngblip\\picw1\\pich1 " + tk.x("PIC") + "}"
+
+    def alts(tk):
+        hf = lambda kw, inner: ("{\\" + kw + " \\pard\\plain " + inner + "\\par}\n", "")
+        return {
+            "par": lambda: (lambda a: ("\\pard\\plain " + a + "\\par\n", a + "\n"))(tk.v()),
+            "header-plain": lambda: hf("header", tk.x("HF")),
+            "footer-format-group": lambda: hf("footerf", "{\\b " + tk.x("HF") + "}" + tk.x("HF")),
+            "header-starred": lambda: hf("headerl", "{\\*\\shpinst " + tk.x("RM") + "}" + tk.x("HF")),
+            "header-pict-then-text": lambda: hf("header", pict(tk) + " " + tk.x("HF")),
+            "footer-text-pict-text": lambda: hf("footer", tk.x("HF") + pict(tk) + " " + tk.x("HF")),
+            "header-object-then-text": lambda: hf("headerf", "{\\object\\objemb " + tk.x("RM") + "}" + tk.x("HF")),
+            "header-pict-one-level-deeper": lambda: hf("header", "{\\b " + pict(tk) + tk.x("HF") + "}"),
+            "pict": lambda: (pict(tk) + "\n", ""),
+            "pict-starred-sub": lambda: ("{\\pict{\\*\\picprop " + tk.x("RM") + "}\\pngblip " + tk.x("PIC") + "}\n", ""),
+            "pict-starred-sub-nested": lambda: ("{\\pict{\\*\\picprop{\\sp{\\sn shapeType}{\\sv 75}}}\\pngblip " + tk.x("PIC") + "}\n", ""),
+            "starred": lambda: ("{\\*\\generator " + tk.x("RM") + ";}", ""),
+        }
+    kinds = {"header-pict-then-text": "header-with-nested-destination", "footer-text-pict-text": "header-with-nested-destination",
+             "header-object-then-text": "header-with-nested-destination",
+             "header-pict-one-level-deeper": "destination-nested-deeper-inside-skipped-group",
+             "pict-starred-sub-nested": "destination-nested-deeper-inside-skipped-group"}
+    names = list(alts(Tok()))
+    for k in (1, 2, 3):
+        for combo in itertools.product(names, repeat=k):
+            if k == 3 and "par" not in combo:
+                continue
+            ks = {kinds[c] for c in combo if c in kinds}
+            if len(ks) > 1:
+                continue
+            tk = Tok()
+            a = alts(tk)
+            parts = [a[c]() for c in combo]
+            tail = tk.v()
+            src = PRO + "".join(x for x, _ in parts) + "\\pard\\plain " + tail + "\\par}"
+            yield (next(iter(ks)) if ks else "plain"), src, "".join(y for _, y in parts) + tail
 
 
 # =============================================================================================
